@@ -726,6 +726,32 @@ impl<Front: SocketHandler + std::fmt::Debug, L: ListenerHandler + L7ListenerHand
                 break;
             }
         }
+
+        // Cross-readiness, as after the frontend write in `ready()`: the writes
+        // above may have freed the buffer space a backend was parked on. `ready()`
+        // only runs on socket events, and a client waiting for the rest of its
+        // response sends none, so without this step a response still arriving at
+        // soft stop stalls until `back_timeout` and is then reset. What is read
+        // here goes out on the next shutdown pass.
+        let mut resumed = Vec::new();
+        for (token, backend) in self.router.backends.iter_mut() {
+            if backend.try_resume_reading(&self.context) {
+                resumed.push(*token);
+            }
+        }
+        for token in resumed {
+            let Some(backend) = self.router.backends.get_mut(&token) else {
+                continue;
+            };
+            match backend.readable(&mut self.context, EndpointServer(&mut self.frontend)) {
+                MuxResult::Continue | MuxResult::Upgrade => {}
+                MuxResult::CloseSession => {
+                    if !self.delay_close_for_frontend_flush("backend readable (shutdown)") {
+                        return true;
+                    }
+                }
+            }
+        }
         false
     }
 }
